@@ -1033,6 +1033,16 @@ func (c *Client) DialToSMTPClientWithContext(ctxDial context.Context) (*smtp.Cli
 		return nil, err
 	}
 
+	// The dial context only bounds the connection setup. Everything that follows (greeting,
+	// EHLO, STARTTLS, TLS handshake, AUTH) must be bounded as well, so we arm the connection
+	// deadline with the same point in time.
+	if deadline, ok := ctx.Deadline(); ok {
+		if err = connection.SetDeadline(deadline); err != nil {
+			_ = connection.Close()
+			return nil, fmt.Errorf("failed to set connection deadline: %w", err)
+		}
+	}
+
 	client, err := smtp.NewClient(connection, c.host)
 	if err != nil {
 		return nil, err
@@ -1095,6 +1105,7 @@ func (c *Client) CloseWithSMTPClient(client *smtp.Client) error {
 	if client == nil || !client.HasConnection() {
 		return nil
 	}
+	_ = client.UpdateDeadline(c.connTimeout)
 	if err := client.Quit(); err != nil {
 		// The server did not acknowledge the QUIT. Do not leave the connection open.
 		_ = client.Close()
@@ -1494,14 +1505,16 @@ func (c *Client) checkConn(client *smtp.Client) error {
 	c.mutex.RLock()
 	noNoop := c.noNoop
 	c.mutex.RUnlock()
+
+	// The deadline has to be extended before the NOOP, otherwise the NOOP itself is either
+	// unbounded or runs into the (expired) deadline of the previous operation.
+	if err := client.UpdateDeadline(c.connTimeout); err != nil {
+		return ErrDeadlineExtendFailed
+	}
 	if !noNoop {
 		if err := client.Noop(); err != nil {
 			return ErrNoActiveConnection
 		}
-	}
-
-	if err := client.UpdateDeadline(c.connTimeout); err != nil {
-		return ErrDeadlineExtendFailed
 	}
 	return nil
 }
